@@ -2,6 +2,6 @@ SPECIFICATION TraceSpec
 CONSTANTS
   MaxDepth = 1000000
 INVARIANTS InitLeSpare Nested Contents OwnerBytes Untouched
-PROPERTIES Frame WriteBack Refusal
+PROPERTIES Frame WriteBack Refusal SliceReported
 POSTCONDITION TraceAccepted
 CHECK_DEADLOCK FALSE
